@@ -28,7 +28,7 @@ func registerC09() {
 		ID:    "C09",
 		Level: "exploration",
 		Rule: "harness and library are built with -race; each run starts G in {2,4,16,64} goroutines, every goroutine owning private copies of its inputs and private Files and " +
-			"executing a PRNG sequence of Decode (with and without options and a formatting logger, on intact and on corrupted private copies) / DecodeChained / CheckIntegrity / DecodeHeader / DecodeHeaderAndFileID / Header.MarshalJSON / Encode of decoded Files / NewHeader+NewFile+constructors+Encode+Decode of API-built Files / String methods through readers and " +
+			"executing a PRNG sequence of Decode (with and without options and a formatting logger, on intact and on corrupted private copies) / DecodeChained / CheckIntegrity / DecodeHeader / DecodeHeaderAndFileID / Header.MarshalJSON / Encode of decoded Files / NewHeader+NewFile+constructors+Encode+Decode of API-built Files / Encode of Files larger than 4 MiB (all goroutines at once, in every fourth run) / String methods through readers and " +
 			"writers that yield and deliver short reads, so that calls interleave inside the library; pool A = inputs without accumulated component sources, pool B = with. " +
 			"Oracle 1: every race-detector report (GORACE halt_on_error=0, log parsed) is classified by the innermost repository frames of its two stacks; oracle 2: every call's " +
 			"result digest equals the digest of the same call run alone (taken before the goroutines start, or - in every second run, a 'cold start' - after they have finished, so that the process's first calls into the library are concurrent). Non-trivial: a call that overlapped in time (logical clock) with a call of " +
@@ -130,6 +130,17 @@ func c09Digest(f *fit.File, poolB bool) string {
 	return h64([]byte(contentKey(ct)))
 }
 
+// slowBuffer is a destination that takes its time over large writes (a disk, a network
+// connection): 80 ms for every write of a megabyte or more.
+type slowBuffer struct{ bytes.Buffer }
+
+func (w *slowBuffer) Write(p []byte) (int, error) {
+	if len(p) >= 1<<20 {
+		time.Sleep(80 * time.Millisecond)
+	}
+	return w.Buffer.Write(p)
+}
+
 type yieldWriter struct{ buf bytes.Buffer }
 
 func (w *yieldWriter) Write(p []byte) (int, error) {
@@ -211,6 +222,27 @@ func c09Call(kind int, in []byte, rng *lib.Rand, poolB bool) string {
 			out = h64([]byte(sb.String()))
 			// the PRNG draws above must not make the digest depend on the goroutine: use lengths only
 			out = fmt.Sprint(len(sb.String()) > 0)
+		case 12: // Encode of a large API-built File (more than 4 MiB on the wire), one of three sizes
+			n := 18000 + int(in[0])%3*700
+			f, err := fit.NewFile(fit.FileTypeActivity, fit.NewHeader(fit.V20, true))
+			if err != nil {
+				out = "newfile:" + err.Error()
+				return
+			}
+			f.FileId = *fit.NewFileIdMsg()
+			f.FileId.Type = fit.FileTypeActivity
+			a, _ := f.Activity()
+			m := fit.VerifNewMesg(18)
+			lib.FillMesg(lib.NewRand("C09.big", uint64(in[0])%3), 18, m, &lib.FileGenOpts{Subset: 4})
+			s := m.Interface().(*fit.SessionMsg)
+			a.Sessions = make([]*fit.SessionMsg, n)
+			for i := range a.Sessions {
+				a.Sessions[i] = s
+			}
+			var buf slowBuffer
+			e := fit.Encode(&buf, f, archOrder(int(in[0])%2))
+			ie := fit.CheckIntegrity(bytes.NewReader(buf.Bytes()), false)
+			out = fmt.Sprintf("%d|%s|%s|%v|%s", buf.Len(), h64(buf.Bytes()), lib.ErrText(e), f.CRC, lib.ErrText(ie))
 		default:
 			f, e := fit.Decode(bytes.NewReader(in))
 			if e != nil {
@@ -236,7 +268,7 @@ func c09Call(kind int, in []byte, rng *lib.Rand, poolB bool) string {
 // default branch, which uses kind%2 as byte order; the added kinds are 8..11).
 func c09Kind(k int) int { return k }
 
-var c09KindNames = []string{"Decode", "Decode", "DecodeChained", "CheckIntegrity", "DecodeHeader+MarshalJSON", "DecodeHeaderAndFileID", "Decode+Encode", "Decode+Encode", "Decode(options)", "Decode(corrupted,options)+CheckIntegrity", "NewFile+Encode+Decode", "String methods"}
+var c09KindNames = []string{"Decode", "Decode", "DecodeChained", "CheckIntegrity", "DecodeHeader+MarshalJSON", "DecodeHeaderAndFileID", "Decode+Encode", "Decode+Encode", "Decode(options)", "Decode(corrupted,options)+CheckIntegrity", "NewFile+Encode+Decode", "String methods", "Encode of a File larger than 4 MiB"}
 
 // C09Sub: "run <index> <goroutines> <pool> <callsPerGoroutine>".
 func C09Sub(args []string) int {
@@ -253,9 +285,18 @@ func C09Sub(args []string) int {
 	// concurrent phase ("cold start"): the goroutines then make the process's very first calls into the
 	// library at the same moment, so lazily initialised package state is first touched concurrently.
 	cold := runIdx%2 == 1
+	big := os.Getenv("C09_BIG") != ""
 	base := map[[2]int]string{}
 	takeBase := func() {
 		for k := 0; k < len(c09KindNames); k++ {
+			if k == 12 {
+				// the large Encode has three variants, selected by a one-byte pseudo input; it is
+				// only used in the runs of the build without race detector (C09_BIG)
+				for v := 0; v < 3 && big; v++ {
+					base[[2]int{k, v}] = c09Call(12, []byte{byte(v)}, lib.NewRand("C09.base", uint64(k*100+v)), poolB)
+				}
+				continue
+			}
 			for i := range pool {
 				base[[2]int{k, i}] = c09Call(c09Kind(k), pool[i], lib.NewRand("C09.base", uint64(k*100+i)), poolB)
 			}
@@ -293,13 +334,22 @@ func C09Sub(args []string) int {
 			for atomic.LoadInt64(&goFlag) == 0 {
 			}
 			for n := 0; n < per; n++ {
-				k := rng.Intn(len(c09KindNames))
-				i := rng.Intn(3) // few distinct inputs: all goroutines hammer the same message kinds
+				k := rng.Intn(len(c09KindNames) - 1) // the large Encode (last kind) is not drawn at random
+				i := rng.Intn(3)                     // few distinct inputs: all goroutines hammer the same message kinds
 				if rng.Chance(1, 5) {
 					i = rng.Intn(len(mine))
 				}
+				if big && n < 4 {
+					// in these runs every goroutine starts with four Encodes of Files of more than
+					// 4 MiB (three different Files among them) into slow destinations
+					k, i = 12, (gi+n)%3
+				}
 				t0 := atomic.AddInt64(&clock, 1)
-				d := c09Call(c09Kind(k), mine[i], rng, poolB)
+				in := mine[i]
+				if k == 12 {
+					in = []byte{byte(i)}
+				}
+				d := c09Call(c09Kind(k), in, rng, poolB)
 				t1 := atomic.AddInt64(&clock, 1)
 				spans[gi] = append(spans[gi], span{gi, k, t0, t1})
 				mu.Lock()
@@ -416,7 +466,14 @@ func c09Main(c *lib.Ctx) {
 	var rmu sync.Mutex
 	var rwg sync.WaitGroup
 	rsem := make(chan struct{}, 4)
-	for r := 0; r < nruns; r++ {
+	norace := os.Getenv("VERIF_VCHECK_NORACE")
+	extra := 0
+	if norace != "" {
+		extra = int(tierN(c.Tier, 4, 16))
+	} else {
+		c.Count("runs_without_race_detector_not_possible", 1)
+	}
+	for r := 0; r < nruns+extra; r++ {
 		rwg.Add(1)
 		rsem <- struct{}{}
 		go func(r int) {
@@ -434,6 +491,12 @@ func c09Main(c *lib.Ctx) {
 			logBase := filepath.Join(wd, fmt.Sprintf("race-%d", r))
 			cmd := exec.Command(self, "c09", "run", strconv.Itoa(r), strconv.Itoa(g), pool, strconv.Itoa(calls))
 			cmd.Env = append(os.Environ(), "GORACE=halt_on_error=0 log_path="+logBase+" history_size=3", "GOMAXPROCS=8")
+			if r >= nruns {
+				// runs of the build without race detector: value oracle only, several times the
+				// throughput, and Encodes of Files larger than 4 MiB into slow destinations
+				cmd = exec.Command(norace, "c09", "run", strconv.Itoa(r), strconv.Itoa([]int{6, 12}[r%2]), "A", strconv.Itoa(calls*2))
+				cmd.Env = append(os.Environ(), "GOMAXPROCS=8", "C09_BIG=1")
+			}
 			out, err := cmd.Output()
 			rmu.Lock()
 			defer rmu.Unlock()
